@@ -37,7 +37,11 @@ def _record_arg(call, fields, name):
     for k in call.keywords:
         if k.arg == name:
             return k.value
-    return None
+    return getattr(fields, "defaults", {}).get(name)  # a field left to its (constant) default
+
+
+class _Fields(list):
+    defaults: dict = {}
 
 
 def record_fields(p, module):
@@ -51,7 +55,10 @@ def record_fields(p, module):
         data = any(unparse(d.func if isinstance(d, ast.Call) else d).split(".")[-1] == "dataclass" for d in ci.node.decorator_list)
         if not (named or data) or any(isinstance(x, ast.FunctionDef) and x.name in ("__init__", "__new__", "__post_init__") for x in ci.node.body):
             return None
-        return [x.target.id for x in ci.node.body if isinstance(x, ast.AnnAssign) and isinstance(x.target, ast.Name) and "ClassVar" not in unparse(x.annotation)]
+        decl = [x for x in ci.node.body if isinstance(x, ast.AnnAssign) and isinstance(x.target, ast.Name) and "ClassVar" not in unparse(x.annotation)]
+        out = _Fields(x.target.id for x in decl)
+        out.defaults = {x.target.id: x.value for x in decl if isinstance(x.value, ast.Constant)}
+        return out
 
     def fields(call):
         f = call.func
@@ -782,3 +789,31 @@ def prepared(ctx, fn, recv_cls=None):
     local = {x.id for x in ast.walk(node) if isinstance(x, ast.Name) and isinstance(x.ctx, (ast.Store, ast.Del))} - {"self", "cls"}
     node = unrolled(node, static_value(ctx.p, fn, local))
     return node, Locals(node, record_fields(ctx.p, fn.module))
+
+
+# ---------------------------------------------------------------------- folds
+def fold_uses(ctx, views) -> dict:
+    """A fold — `accumulate(items, step, initial=s0)` / `reduce(step, items, s0)` — is the loop `state = s0; for x in items:
+    state = step(state, x)`: the first parameter of the step function is a loop-carried variable whose sources are s0 and what
+    the step returns.  Returns {(module relpath, class name | None, function name): [initial expression, ...]} for the package
+    functions used as a step in the given views [(view, receiver class)]."""
+    out: dict = {}
+    for view, recv in views:
+        for c in ast.walk(view.node):
+            if not isinstance(c, ast.Call):
+                continue
+            f = unparse(c.func).split(".")[-1]
+            step = init = None
+            if f == "accumulate" and len(c.args) >= 2:
+                step = c.args[1]
+                init = next((k.value for k in c.keywords if k.arg == "initial"), None)
+            elif f == "accumulate" and len(c.args) == 1:
+                step = next((k.value for k in c.keywords if k.arg == "func"), None)
+                init = next((k.value for k in c.keywords if k.arg == "initial"), None)
+            elif f == "reduce" and len(c.args) == 3:
+                step, init = c.args[0], c.args[2]
+            if step is None or init is None or not isinstance(step, (ast.Name, ast.Attribute)):
+                continue
+            for target, _r in resolve_call(ctx.p, view, ast.Call(func=step, args=[], keywords=[]), recv):
+                out.setdefault((target.module.relpath, target.cls.name if target.cls is not None else None, target.name), []).append(init)
+    return out
